@@ -1,4 +1,4 @@
 SPECIFICATION GSpec
-CONSTANTS MaxV = 4 Objs = {"o1", "o2"} Slots = {0, 1} MaxLen = 5 Sim = FALSE
+CONSTANTS MaxV = 3 Objs = {"o1", "o2"} Slots = {0, 1} MaxLen = 4 Sim = FALSE
 INVARIANT CountsExact NothingDangling Emit
 CHECK_DEADLOCK FALSE
